@@ -29,7 +29,8 @@ LEAN = dict(
         "eq_iff_same", "hash_consistent", "operators_are_lex", "le_refl", "le_antisymm", "le_trans",
         "le_total", "lt_irrefl", "lt_iff_le_not_eq", "gt_iff_lt_swap", "ge_iff_le_swap", "trichotomy",
         "supports_iff", "versions_sorted_all", "versions_order_independent", "resolve_spec",
-        "resolve_none_iff", "resolve_latest", "keys_lists_registered", "keys_of_name", "contains_iff", "get_is_resolve", "epname_roundtrip", "qualname_has_no_separator",
+        "resolve_none_iff", "resolve_latest", "resolve_order_independent", "supports_refl", "supports_trans",
+        "resolve_serves_weaker", "keys_lists_registered", "keys_of_name", "contains_iff", "get_is_resolve", "epname_roundtrip", "qualname_has_no_separator",
         "legacy_lt_not_irreflexive", "marked_base_refused"]]
     + ["MetadorModel.Bridge.PluginRef." + n for n in ["gen_eq", "gen_ge", "gen_supports", "gen_hashKey", "gen_cmp_ops"]]
     + ["MetadorModel.Bridge.Metaclass.gen_newRaises"]
